@@ -102,10 +102,16 @@ class Ctx:
 C = Ctx()
 
 
-def run(args, stdin=None, timeout=120):
+def run(args, stdin=None, timeout=120, nofile=None):
     C.count("evaluations")
+    pre = None
+    if nofile:
+        import resource
+
+        def pre():
+            resource.setrlimit(resource.RLIMIT_NOFILE, (nofile, nofile))
     try:
-        r = subprocess.run(args, input=stdin, capture_output=True, timeout=timeout)
+        r = subprocess.run(args, input=stdin, capture_output=True, timeout=timeout, preexec_fn=pre)
         return r.returncode, r.stdout, r.stderr
     except subprocess.TimeoutExpired:
         return -999, b"", b"timeout"
@@ -323,6 +329,31 @@ def part_exit_status(fx):
                     if rc == 0:
                         C.violation("exit-status|zero-despite-failures|cause-%s" % cause, "good tokens and one failing as %s via %s: exit status 0" % (cause, "stdin" if via else "argv"))
         C.nontrivial()
+    # the remaining documented options of jwt-verify, --verbose and --print=CMD (each token's header and payload piped through CMD), in both
+    # spellings, with lists long enough that a descriptor or child process kept per token runs into the limit (64 descriptors here)
+    for spelling in (0, 1):
+        for n in (1, 2, 40) if C.tier == "quick" else (1, 2, 3, 40, 100):
+            for via in (False, True):
+                if not C.case("jwt-verify %s %s with %d valid tokens (%s), at most 64 open descriptors" %
+                              ("--verbose" if spelling else "-v", "--print=CMD" if spelling else "-p CMD", n, "stdin" if via else "arguments")):
+                    continue
+                opts = (["--verbose", "--print=cat >/dev/null"] if spelling else ["-v", "-p", "cat >/dev/null"]) + ["-k", fx["oct_alg"]]
+                toks = [good[i % len(good)] for i in range(n)]
+                if via:
+                    rc, out, err = run([tool("jwt-verify")] + opts + ["-"], stdin=("\n".join(toks) + "\n").encode(), nofile=64)
+                else:
+                    rc, out, err = run([tool("jwt-verify")] + opts + toks, nofile=64)
+                C.obs((rc == 0, n))
+                if rc != 0:
+                    C.violation("exit-status|nonzero-despite-all-good|verbose-print", "%d valid tokens with %s: exit status %d: %s" %
+                                (n, " ".join(opts[:-2]), rc, (err or out).decode(errors="replace")[-200:]))
+                # ... and one bad token among them still counts
+                toks2 = toks + [bad[0]]
+                rc, out, err = run([tool("jwt-verify")] + opts + toks2, nofile=64)
+                C.obs((rc == 0, n, "bad"))
+                if rc == 0:
+                    C.violation("exit-status|zero-despite-failures|verbose-print", "%d valid tokens and a bad one with %s: exit status 0" % (n, " ".join(opts[:-2])))
+                C.nontrivial()
     # long lists
     lengths = [254, 255, 256, 257, 258, 511, 512, 513, 1024] if C.tier == "thorough" else [255, 256, 257, 512]
     for n in lengths:
